@@ -8,19 +8,23 @@ From Coq Require Import List String Bool Arith.
 From Helm Require Import Engine.Types Engine.Eff Engine.Ops Engine.Skeleton Engine.SkeletonExpected
                          Engine.SkeletonModel Engine.SkeletonProofs Engine.SkeletonProofsAll Engine.SkeletonCover
                          Engine.SkeletonNorm Engine.SkeletonNormProofs Engine.SkeletonInlineProofs Engine.SkeletonNormModel
-                         Engine.SkeletonSource
+                         Engine.SkeletonFine Engine.SkeletonFineCover Engine.SkeletonSource
                          Engine.SkeletonSourceProofs Gen.ActionSkeleton.
 Import ListNotations.
 Local Open Scope string_scope.
 
-(* 1. What the translator read out of the Go source on this run has, for each of the four entry
-      points (and their wrappers, and Storage.Create), the same NORMAL FORM as the expected
-      skeleton: all calls of tracked and followed functions inlined, then compared node for
+(* 1. What the translator read out of the Go source on this run EITHER has, for each of the four
+      entry points (and their wrappers, and Storage.Create), the same NORMAL FORM as the expected
+      skeleton -- all calls of tracked and followed functions inlined, then compared node for
       node (every effectful call, in evaluation order, every condition on an option flag, every
       error branch with the kind of its return, every loop) modulo the rewrites of
-      Engine/SkeletonNorm.v, each of which is exact for the path semantics (1b). *)
-Theorem skeleton_matches_source : norm_roots skeleton = norm_roots expected.
-Proof. exact source_normal_form. Qed.
+      Engine/SkeletonNorm.v, each of which is exact for the path semantics (1b) -- OR passes
+      the semantic obligations evaluated on the regenerated table itself (1c): semantic_ok t =
+      fine_ok t && coverage_ok t.  The second alternative is evaluated only when the first
+      fails (Engine/SkeletonSource.v: source_obligation). *)
+Theorem skeleton_matches_source :
+  norm_roots skeleton = norm_roots expected \/ semantic_ok skeleton = true.
+Proof. exact source_normal_form_or_semantic. Qed.
 Print Assumptions skeleton_matches_source.
 
 (* nothing the translator could not classify (Unknown), no call that does not resolve and no
@@ -28,6 +32,40 @@ Print Assumptions skeleton_matches_source.
 Theorem skeleton_source_live : forallb (fun p => live (snd p)) (norm_roots skeleton) = true.
 Proof. exact source_roots_live. Qed.
 Print Assumptions skeleton_source_live.
+
+(* 1c. What the semantic alternative says.  fine_ok: under the finer path language of
+       Engine/SkeletonFine.v -- a run is a list of (kind, answered-an-error) pairs; a Call
+       continues in the component the run says, an If keeps the components its branches end
+       with, a call outside the skeleton answers nil -- the model's run is a path of the
+       inlined entry function: failure-free for every operation, option assignment of its flag
+       space, ledger, adopt or not (below), and with every single failure on the smaller space
+       (ocheck_fail).  coverage_ok: every call site (effect / nested run) of a function
+       reachable from an entry point is needed by one of the 25 probe runs (deleting it makes
+       the run no path), or sits under an option the model does not have, or is of a kind
+       outside the model, or has a label -- the model kinds that can be performed through it --
+       that one of the unneeded sites of the expected table has too (expected_unneeded, 11
+       labels: the alternative deletes of Uninstall.deleteRelease, the hook deletions that
+       read like their siblings, releaseContent with a version, the calls that only act on a
+       cancelled context or pass nil, two updates next to a loop of updates).  The expected
+       table itself passes. *)
+Theorem skeleton_semantic_alternative :
+  forall t : table, semantic_ok t = true ->
+    (forall (o : opk) (fl : flags) (l : list release) (ad : bool),
+        In fl (flag_space o) -> In l ledgers ->
+        ofollows (oroot t o) (mkScen o fl l ad) [] = true) /\
+    (forall o, In o ops -> ocheck_fail t o = true) /\
+    coverage_ok t = true.   (* = multi_incl (unneeded t the_probes) expected_unneeded *)
+Proof.
+  intros t H. unfold semantic_ok in H. apply andb_prop in H. destruct H as [Hf Hc].
+  split; [exact (fine_ok_spec t Hf)|]. split; [|exact Hc].
+  intros o Ho. unfold fine_ok in Hf. pose proof (forallb_In _ _ Hf o Ho) as H1. cbv beta in H1.
+  apply andb_prop in H1. exact (proj2 H1).
+Qed.
+Print Assumptions skeleton_semantic_alternative.
+
+Theorem skeleton_expected_fine_ok : fine_ok expected = true.
+Proof. exact expected_fine. Qed.
+Print Assumptions skeleton_expected_fine_ok.
 
 (* 1b. The normal form has exactly the paths of the skeleton it is computed from, for every
        input, loop bound and option assignment (naccepts: the abstract interpretation of
@@ -38,13 +76,16 @@ Theorem skeleton_norm_sound :
 Proof. exact norm_sound. Qed.
 Print Assumptions skeleton_norm_sound.
 
-(* ... so the source skeleton and the expected one have the same paths from every root *)
+(* ... so when the normal forms are equal the source skeleton and the expected one have the
+   same paths from every root *)
 Theorem skeleton_source_same_paths :
+  norm_roots skeleton = norm_roots expected ->
   forall entry, In entry roots ->
     forall inp fuel env,
       naccepts (inline_root skeleton entry) inp fuel env = naccepts (inline_root expected entry) inp fuel env.
 Proof.
-  intros entry H. exact (same_normal_form_same_paths skeleton expected entry (source_root_normal_form entry H)).
+  intros Heq entry H.
+  exact (same_normal_form_same_paths skeleton expected entry (root_normal_form skeleton expected Heq entry H)).
 Qed.
 Print Assumptions skeleton_source_same_paths.
 
@@ -111,42 +152,46 @@ Print Assumptions rskeleton_is_skeleton.
 (* 2d. The transfer route, without looking at the source table again: a run the checker accepts
        on the expected table is a path of the inlined expected entry function under nx
        (Engine/SkeletonInlineProofs.v: raccepts_naccepts), hence of its normal form (1b), hence
-       -- by 1 -- of the inlined entry function of the skeleton extracted from /repo on this
-       run.  So 2a, 2b and 2c hold for the source skeleton under nx (FUEL rounds per loop). *)
+       -- when the first alternative of 1 holds -- of the inlined entry function of the skeleton
+       extracted from /repo on this run.  So 2a, 2b and 2c then hold for the source skeleton
+       under nx (FUEL rounds per loop). *)
 Theorem model_follows_inlined_source_skeleton :
+  norm_roots skeleton = norm_roots expected ->
   forall (o : opk) (fl : flags) (l : list release) (ad : bool),
     In fl (flag_space o) -> In l ledgers ->
     naccepts (inline_root skeleton (entry_of o)) (model_trace (mkScen o fl l ad) []) FUEL (env_of fl) = true.
 Proof.
-  intros o fl l ad H1 H2.
+  intros Heq o fl l ad H1 H2.
   exact (follows_transfer expected skeleton rexpected rexpected_is (mkScen o fl l ad) []
-           (source_root_normal_form _ (entry_is_root o)) (model_follows_skeleton_lemma o fl l ad H1 H2)).
+           (root_normal_form skeleton expected Heq _ (entry_is_root o)) (model_follows_skeleton_lemma o fl l ad H1 H2)).
 Qed.
 Print Assumptions model_follows_inlined_source_skeleton.
 
 Theorem model_failures_follow_inlined_source_skeleton :
+  norm_roots skeleton = norm_roots expected ->
   forall (o : opk) (fl : flags) (l : list release),
     In fl (fail_flag_space o) -> In l (fail_ledgers o) ->
     forall n, n < List.length (model_trace (mkScen o fl l false) []) ->
       naccepts (inline_root skeleton (entry_of o)) (model_trace (mkScen o fl l false) [n]) FUEL (env_of fl) = true.
 Proof.
-  intros o fl l H1 H2 n Hn.
+  intros Heq o fl l H1 H2 n Hn.
   exact (follows_transfer expected skeleton rexpected rexpected_is (mkScen o fl l false) [n]
-           (source_root_normal_form _ (entry_is_root o))
+           (root_normal_form skeleton expected Heq _ (entry_is_root o))
            (proj2 (model_failures_follow_skeleton_lemma o fl l H1 H2) n Hn)).
 Qed.
 Print Assumptions model_failures_follow_inlined_source_skeleton.
 
 Theorem model_follows_inlined_source_skeleton_all_flags :
+  norm_roots skeleton = norm_roots expected ->
   forall (o : opk) (a c k r h d co tk : bool),
     naccepts (inline_root skeleton (entry_of o))
              (model_trace (mkScen o (mkFlags a c k r 2 h d co tk 0) (main_ledger o) false) []) FUEL
              (env_of (mkFlags a c k r 2 h d co tk 0)) = true.
 Proof.
-  intros o a c k r h d co tk.
+  intros Heq o a c k r h d co tk.
   exact (follows_transfer expected skeleton rexpected rexpected_is
            (mkScen o (mkFlags a c k r 2 h d co tk 0) (main_ledger o) false) []
-           (source_root_normal_form _ (entry_is_root o))
+           (root_normal_form skeleton expected Heq _ (entry_is_root o))
            (model_follows_skeleton_all_flags_lemma o a c k r h d co tk)).
 Qed.
 Print Assumptions model_follows_inlined_source_skeleton_all_flags.
